@@ -167,7 +167,8 @@ Qed.
 Section Sound.
   Variables (lbs ubs : list Z) (f : contents -> Z) (n_iter : nat) (okc : contents -> contents -> bool).
   Variable n : nat.           (* n_trees = n_agents *)
-  Variable B0 : agent.        (* the initial best agent (placeholder position, sentinel fitness) *)
+  Variable B0 : agent.        (* the best agent the task starts with (fresh space: placeholder position, sentinel fitness) *)
+  Variable BT0 : contents.    (* ... and the value of the best tree it starts with *)
 
   Definition hk : st -> st := fun x => x.     (* the hook is an observer *)
 
@@ -175,7 +176,7 @@ Section Sound.
   Definition slot_cons (x : st) (j : nat) : Prop :=
     forall ag c, nth_error (pop x) j = Some ag -> nth_error (tv x) j = Some c -> cons_ag c ag.
   Definition best_cons (x : st) : Prop := apos (best x) = clipc lbs ubs (btv x) /\ afit (best x) = f (apos (best x)).
-  Definition best_ok (x : st) : Prop := best_cons x \/ best x = B0.
+  Definition best_ok (x : st) : Prop := best_cons x \/ (best x = B0 /\ btv x = BT0).
   Definition lens (x : st) : Prop := length (tv x) = n /\ length (pop x) = n.
   Definition final_ok (x : st) : Prop := lens x /\ (forall j, slot_cons x j) /\ best_ok x.
   Definition ev_ok (e : event) : Prop := match e with EvDump y => final_ok y | _ => True end.
@@ -589,7 +590,7 @@ Section Sound.
   Qed.
 
   (* the initial state of run(): n trees, n agents, the best agent is the placeholder [B0] *)
-  Definition init_ok (x : st) : Prop := lens x /\ best x = B0.
+  Definition init_ok (x : st) : Prop := lens x /\ best x = B0 /\ btv x = BT0.
 
   Lemma init_GG x : init_ok x -> GG ga_init None x [].
   Proof.
@@ -615,13 +616,13 @@ Section Sound.
 End Sound.
 
 (* ---------------------------------------------------------------- the claim, spelled out *)
-Definition c12_claim (lbs ubs : list Z) (f : contents -> Z) (n : nat) (B0 : agent) (y : st) : Prop :=
+Definition c12_claim (lbs ubs : list Z) (f : contents -> Z) (n : nat) (B0 : agent) (BT0 : contents) (y : st) : Prop :=
   length (tv y) = n /\ length (pop y) = n /\
   (forall i ag c, nth_error (pop y) i = Some ag -> nth_error (tv y) i = Some c ->
      apos ag = clipc lbs ubs c /\ afit ag = f (apos ag)) /\
-  ((apos (best y) = clipc lbs ubs (btv y) /\ afit (best y) = f (apos (best y))) \/ best y = B0).
+  ((apos (best y) = clipc lbs ubs (btv y) /\ afit (best y) = f (apos (best y))) \/ (best y = B0 /\ btv y = BT0)).
 
-Lemma final_ok_claim lbs ubs f n B0 y : final_ok lbs ubs f n B0 y <-> c12_claim lbs ubs f n B0 y.
+Lemma final_ok_claim lbs ubs f n B0 BT0 y : final_ok lbs ubs f n B0 BT0 y <-> c12_claim lbs ubs f n B0 BT0 y.
 Proof.
   unfold final_ok, c12_claim, lens, slot_cons, cons_ag, best_ok, best_cons. split.
   - intros [[H1 H2] [H3 H4]]. repeat split; try assumption; eapply H3; eassumption.
@@ -629,7 +630,7 @@ Proof.
 Qed.
 
 (* with every slot in range having both an agent and a tree *)
-Lemma c12_claim_slots lbs ubs f n B0 y : c12_claim lbs ubs f n B0 y ->
+Lemma c12_claim_slots lbs ubs f n B0 BT0 y : c12_claim lbs ubs f n B0 BT0 y ->
   forall i, i < n -> exists ag c, nth_error (pop y) i = Some ag /\ nth_error (tv y) i = Some c /\
                                   apos ag = clipc lbs ubs c /\ afit ag = f (apos ag).
 Proof.
@@ -639,25 +640,69 @@ Proof.
   exists ag, c. split; [reflexivity|]. split; [reflexivity|]. eapply H3; eassumption.
 Qed.
 
-(* "if the best agent was ever updated": its fitness is numerically below the initial (sentinel) fitness *)
-Lemma c12_claim_sentinel lbs ubs f n B0 y : c12_claim lbs ubs f n B0 y ->
+(* "if the best agent was ever updated": its fitness is numerically below the fitness the task started with *)
+Lemma c12_claim_sentinel lbs ubs f n B0 BT0 y : c12_claim lbs ubs f n B0 BT0 y ->
   klt (afit (best y)) (afit B0) = true ->
   apos (best y) = clipc lbs ubs (btv y) /\ afit (best y) = f (apos (best y)).
 Proof.
-  intros (_ & _ & _ & [H|H]) Hlt; [exact H|]. rewrite H, klt_irrefl in Hlt. discriminate.
+  intros (_ & _ & _ & [H|[H _]]) Hlt; [exact H|]. rewrite H, klt_irrefl in Hlt. discriminate.
 Qed.
 
-Definition ev_claim12 (lbs ubs : list Z) (f : contents -> Z) (n : nat) (B0 : agent) (e : event) : Prop :=
-  match e with EvDump y => c12_claim lbs ubs f n B0 y | _ => True end.
+Definition ev_claim12 (lbs ubs : list Z) (f : contents -> Z) (n : nat) (B0 : agent) (BT0 : contents) (e : event) : Prop :=
+  match e with EvDump y => c12_claim lbs ubs f n B0 BT0 y | _ => True end.
 
 Theorem c12_main (p : stmt) lbs ubs f n_iter okc n o x0 x' evs o' :
   c12_check p = true ->
   length (tv x0) = n -> length (pop x0) = n ->
   run lbs ubs f (fun x => x) n_iter okc p o x0 = Some (x', evs, o') ->
-  c12_claim lbs ubs f n (best x0) x' /\ Forall (ev_claim12 lbs ubs f n (best x0)) evs.
+  c12_claim lbs ubs f n (best x0) (btv x0) x' /\ Forall (ev_claim12 lbs ubs f n (best x0) (btv x0)) evs.
 Proof.
   intros Hc H1 H2 Hr.
-  destruct (c12_of_check lbs ubs f n_iter okc n (best x0) p Hc o x0 x' evs o' (conj (conj H1 H2) eq_refl) Hr) as [HF HE].
+  destruct (c12_of_check lbs ubs f n_iter okc n (best x0) (btv x0) p Hc o x0 x' evs o' (conj (conj H1 H2) (conj eq_refl eq_refl)) Hr) as [HF HE].
   split; [apply final_ok_claim; exact HF|].
   eapply Forall_impl; [|exact HE]. intros e He. destruct e; simpl in *; try exact I. apply final_ok_claim; exact He.
+Qed.
+
+(* ---------------------------------------------------------------- histories of GP tasks on one space
+   The pair (best agent, best-tree value) a task starts with is either consistent or the untouched pair of the fresh space;
+   a task either replaces both consistently or leaves both alone: so the claim, with the ORIGINAL placeholder pair, holds at
+   every record and at the end of every task of every finite sequence of tasks on the same space. *)
+Inductive tasks12 (lbs ubs : list Z) (f : contents -> Z) (n_iter : nat) (okc : contents -> contents -> bool) :
+  list stmt -> st -> list event -> st -> Prop :=
+| tasks12_nil x : tasks12 lbs ubs f n_iter okc [] x [] x
+| tasks12_cons p ps x o x1 evs1 o1 evs2 x2 :
+    run lbs ubs f (fun y => y) n_iter okc p o x = Some (x1, evs1, o1) ->
+    tasks12 lbs ubs f n_iter okc ps x1 evs2 x2 ->
+    tasks12 lbs ubs f n_iter okc (p :: ps) x (evs1 ++ evs2) x2.
+
+Lemma claim_rebase lbs ubs f n B0 BT0 x y :
+  c12_claim lbs ubs f n (best x) (btv x) y ->
+  ((apos (best x) = clipc lbs ubs (btv x) /\ afit (best x) = f (apos (best x))) \/ (best x = B0 /\ btv x = BT0)) ->
+  c12_claim lbs ubs f n B0 BT0 y.
+Proof.
+  intros (H1 & H2 & H3 & H4) Hx. repeat split; try assumption; try (eapply H3; eassumption).
+  destruct H4 as [H4|[Hb Ht]]; [left; exact H4|].
+  rewrite Hb, Ht. exact Hx.
+Qed.
+
+Theorem c12_tasks (ps : list stmt) lbs ubs f n_iter okc n B0 BT0 x0 evs x' :
+  Forall (fun p => c12_check p = true) ps ->
+  length (tv x0) = n -> length (pop x0) = n ->
+  ((apos (best x0) = clipc lbs ubs (btv x0) /\ afit (best x0) = f (apos (best x0))) \/ (best x0 = B0 /\ btv x0 = BT0)) ->
+  tasks12 lbs ubs f n_iter okc ps x0 evs x' ->
+  Forall (ev_claim12 lbs ubs f n B0 BT0) evs /\
+  length (tv x') = n /\ length (pop x') = n /\
+  ((apos (best x') = clipc lbs ubs (btv x') /\ afit (best x') = f (apos (best x'))) \/ (best x' = B0 /\ btv x' = BT0)).
+Proof.
+  intros Hps Ht0 Hp0 Hb0 Ht. revert Hps Ht0 Hp0 Hb0.
+  induction Ht as [x|p ps x o x1 evs1 o1 evs2 x2 Hrun Ht IH]; intros Hps Ht0 Hp0 Hb0.
+  - split; [constructor|]. repeat split; assumption.
+  - pose proof (Forall_inv Hps) as Hp. pose proof (Forall_inv_tail Hps) as Hps'. simpl in Hp.
+    destruct (c12_main p lbs ubs f n_iter okc n o x x1 evs1 o1 Hp Ht0 Hp0 Hrun) as [HC HE].
+    pose proof (claim_rebase lbs ubs f n B0 BT0 x x1 HC Hb0) as HC'.
+    destruct HC' as (L1 & L2 & L3 & L4).
+    destruct (IH Hps' L1 L2 L4) as (E2 & R).
+    split; [|exact R]. apply Forall_app. split; [|exact E2].
+    eapply Forall_impl; [|exact HE]. intros e He. destruct e; simpl in *; try exact I.
+    eapply claim_rebase; eassumption.
 Qed.
